@@ -64,9 +64,15 @@ theorem C04_json_one_line_per_root (ts : List CT) : (encodeRoots ts).count '\n' 
 
 /-- a `null` and an empty `children` list are the same tree to the reader -/
 theorem C04_json_null_is_empty (v : List Char) :
-    J.toCT (.obj (.cons "value".toList (.str v) (.cons "children".toList .null .nil))) =
-    J.toCT (.obj (.cons "value".toList (.str v) (.cons "children".toList (.arr .nil) .nil))) := by
+    J.toCT (.obj (.cons valueKey (.str v) (.cons childrenKey .null .nil))) =
+    J.toCT (.obj (.cons valueKey (.str v) (.cons childrenKey (.arr .nil) .nil))) := by
   simp [J.toCT, JL.toCTs]
+
+/-- the records are `{"value": …, "children": …}` — the keys the struct tags in the sources give them today
+    (decided on the regenerated facts), the same in the tinywasm variant -/
+theorem C04_json_keys : valueKey = "value".toList ∧ childrenKey = "children".toList ∧
+    Facts.formattedTags.lookup "wasm_tree_spreader.go:jsonNode" =
+      Facts.formattedTags.lookup "simple_tree_spreader.go:jsonNode" := by decide
 
 /-- non-vacuity: a name made of a quote, a backslash, a line feed, `<`, U+2028 and `é`, with a child -/
 example : (decodeStream (encodeRoots [.mk ['"', '\\', '\n', '<', Char.ofNat 0x2028, 'é'] [.mk ['x'] []]])).bind readAll
